@@ -45,6 +45,9 @@ func specs(tier string) []spec {
 	var out []spec
 	prefix := []ops.Op{{K: "T", A: 0, B: 1, V: 500}, M, {K: "Call", S: "fuse", A: 0, B: 1, V: 50}, M, M}
 	depths := []int{1, 2, 3}
+	if tier == "thorough" {
+		depths = []int{1, 2, 3, 4, 6}
+	}
 	for _, d := range depths {
 		// variant 1: transfers + contract call on A, different transfers + refund on B, B starts with a skipped slot
 		a := []ops.Op{{K: "T", A: 1, B: 2, V: 7}, {K: "Call", S: "stake", A: 3, V: 10}, M}
@@ -58,6 +61,14 @@ func specs(tier string) []spec {
 		b2 := []ops.Op{{K: "T", A: 1, B: 0, T: 1, V: 11}, {K: "M", V: 2}}
 		b2 = append(b2, filler(d, 0)...)
 		out = append(out, spec{fmt.Sprintf("d%d/receive+delegate-vs-send", d), prefix, a2, b2})
+		if tier == "thorough" {
+			// variant 3: the fork point is the last momentum of an epoch (prefix of 5 momentums = heights 2..6 with epochs of 6):
+			// both branches start the next epoch with different producers, content and missed slots
+			pfx3 := []ops.Op{{K: "T", A: 0, B: 1, V: 500}, M, {K: "Call", S: "stake", A: 1, V: 10}, M, M, M, M}
+			a3 := append([]ops.Op{{K: "Call", S: "delegate", A: 0, B: 2}, M}, filler(d-1, 0)...)
+			b3 := append([]ops.Op{{K: "Call", S: "undelegate", A: 1}, {K: "M", V: 2}}, filler(d, 1)...)
+			out = append(out, spec{fmt.Sprintf("d%d/epoch-boundary-fork", d), pfx3, a3, b3})
+		}
 	}
 	// long common prefix: views more than 360 momentums behind the frontier live in the store's second view cache
 	longPrefix := append(append([]ops.Op{}, prefix...), rep(M, 362)...)
@@ -96,6 +107,7 @@ type built struct {
 	prefixH uint64
 	a, b    []*nom.DetailedMomentum // index 0 = height 2
 	bNext   *nom.DetailedMomentum   // one more momentum on top of B
+	cc      []*nom.DetailedMomentum // a third branch from the same fork point, strictly longer than B+1 (index 0 = height 2)
 	aIDs    []types.HashHeight      // abandoned identifiers (A side above the prefix)
 	g1      *nom.AccountBlock       // gossip valid only on top of A (acknowledges A's tip)
 	g2      *nom.AccountBlock       // gossip acknowledging a pre-fork momentum, account untouched on both sides
@@ -144,6 +156,22 @@ func build(c *xs.Ctx, sp spec) *built {
 	ops.Apply(pb, ops.Op{K: "T", A: 2, B: 3, V: 1})
 	ops.Apply(pb, M)
 	bt.bNext = pb.Detailed(pb.Height())
+	if pa.Height()-bt.prefixH <= 6 {
+		// third branch: forks at the same point, other content again (a burn and a transfer of another account, two
+		// skipped slots), two momentums longer than B
+		pc := vnode.New(vnode.Options{Dir: c.TempDir()})
+		if _, err, pan := pc.InsertChain(vnode.CloneBatch(pa.Range(2, bt.prefixH))); err != nil || pan != nil {
+			panic(fmt.Sprintf("prefix sync failed: %v %v", err, pan))
+		}
+		ops.Apply(pc, ops.Op{K: "Call", S: "burn", A: 7, T: 1, V: 5})
+		ops.Apply(pc, ops.Op{K: "M", V: 2})
+		for pc.Height() < pb.Height()+1 {
+			ops.Apply(pc, ops.Op{K: "T", A: 7, B: 6, V: int64(pc.Height())})
+			ops.Apply(pc, M)
+		}
+		bt.cc = pc.Range(2, pc.Height())
+		pc.Destroy()
+	}
 	bt.refuse = pa.Height()-bt.prefixH > 30
 	return bt
 }
@@ -192,6 +220,19 @@ func reference(c *xs.Ctx, bt *built, follow int) (observation, []types.HashHeigh
 	}
 	if _, err, pan := f.InsertChain(vnode.CloneBatch(chain)); err != nil || pan != nil {
 		panic(fmt.Sprintf("reference node refuses the adopted chain: %v %v", err, pan))
+	}
+	if follow == 3 {
+		// second reorganisation: the node ends on the third branch
+		f.Destroy()
+		f = vnode.New(vnode.Options{Dir: c.TempDir(), NoPillars: true})
+		if _, err, pan := f.InsertChain(vnode.CloneBatch(bt.cc)); err != nil || pan != nil {
+			panic(fmt.Sprintf("reference node refuses the third branch: %v %v", err, pan))
+		}
+		var ids []types.HashHeight
+		for _, d := range bt.cc {
+			ids = append(ids, d.Momentum.Identifier())
+		}
+		return observe(f, ids), ids, f
 	}
 	var extra *nom.DetailedMomentum
 	if follow == 1 && !bt.refuse {
@@ -289,6 +330,12 @@ func runCase(c *xs.Ctx, r *xs.Result, bt *built, cs caseSpec, refObs observation
 			return
 		}
 	}
+	if cs.Follow == 3 {
+		if _, e3, p3 := n.InsertChain(vnode.CloneBatch(bt.cc[bt.prefixH-1:])); e3 != nil || p3 != nil {
+			bad("second-reorganisation-refused", "a third, still longer valid branch from the same fork point is refused after the first switch: %v %v", e3, p3)
+			return
+		}
+	}
 	gossipAfter := cs.Follow == 2
 	if gossipAfter {
 		e1, p1 := n.AddAccountBlocks([]*nom.AccountBlock{vnode.CloneBlock(bt.g2)})
@@ -314,7 +361,13 @@ func runCase(c *xs.Ctx, r *xs.Result, bt *built, cs caseSpec, refObs observation
 		}
 	}
 	if !bt.refuse {
-		for _, id := range bt.aIDs {
+		abandoned := append([]types.HashHeight{}, bt.aIDs...)
+		if cs.Follow == 3 {
+			for _, d := range bt.b[bt.prefixH-1:] {
+				abandoned = append(abandoned, d.Momentum.Identifier())
+			}
+		}
+		for _, id := range abandoned {
 			if n.ViewDigest(id) != "" {
 				bad("abandoned-view-served", "a view is still served for abandoned momentum %v (height %d)", id.Hash, id.Height)
 				break
@@ -440,7 +493,11 @@ func run(c *xs.Ctx, r *xs.Result) {
 			nwarm = 3
 		}
 		long := len(get().aIDs) > 3 || strings.HasPrefix(sp.Name, "l2/")
-		for follow := 0; follow < 3; follow++ {
+		nfollow := 3
+		if c.Thorough() && get().cc != nil && !get().refuse {
+			nfollow = 4
+		}
+		for follow := 0; follow < nfollow; follow++ {
 			var refObs observation
 			var refIDs []types.HashHeight
 			for warm := 0; warm < 1<<nwarm; warm++ {
